@@ -456,6 +456,9 @@ func checkC04(c *Ctx) {
 	} else {
 		c.MC("MC_BufReader.tla", "MC_BufReader_quick.cfg", 8)
 	}
+	// liveness on the model: under weak fairness of the source every operation terminates (productive chunks,
+	// empty reads forever, failure)
+	c.MC("MC_BufReader.tla", "MC_BufReader_live.cfg", 4)
 	cases := genRdCases(c)
 	c.TraceCheck(famRd, cases)
 	c.Assume("the scripted source and the pattern recogniser (harness/pat.go, c04.go) are correct; TLC evaluates the contract")
